@@ -47,7 +47,8 @@ fn wanted(fields: &str) -> bool {
     }
 }
 
-/// Append one event: `{"seq":n,"tid":t,<fields>}`; `fields` is the inside of a JSON object.
+/// Append one event: `{"seq":n,"pid":p,"tid":t,<fields>}`; `fields` is the inside of a JSON object.
+/// (`pid`: several processes - the test binaries of one `cargo test` - may append to one file.)
 pub fn emit(fields: &str) {
     if !wanted(fields) {
         return;
@@ -57,7 +58,8 @@ pub fn emit(fields: &str) {
         let tid = std::format!("{:?}", std::thread::current().id());
         let tid: String = tid.chars().filter(|c| c.is_ascii_digit()).collect();
         if let Ok(mut f) = m.lock() {
-            let _ = std::writeln!(f, "{{\"seq\":{seq},\"tid\":{tid},{fields}}}");
+            let pid = std::process::id();
+            let _ = std::writeln!(f, "{{\"seq\":{seq},\"pid\":{pid},\"tid\":{tid},{fields}}}");
         }
     }
 }
